@@ -98,6 +98,7 @@ def _(self, data: Val, encoder: Obj("Encoder")):
 def _(self, decoder: Obj("Decoder")):
     # X.696 16: length determinant, unused-bits octet, presence bits; every present addition is length prefixed and an
     # addition this version does not know is skipped by exactly its announced length (re-synchronisation, C07)
+    opaque("oer_ld_size", "oer_ld_val", "oer_first")
     requires(self.additions is not None)
     raises(DecodeError)
     raises(UnicodeDecodeError)
@@ -153,10 +154,25 @@ def _(self, data: Tup(Str, Val), encoder: Obj("Encoder")):
 
 
 @contract("Choice.decode", props=["C06", "C07", "C16", "C08", "C01"])
-def _(self, decoder: Obj("Decoder")):
-    refines("Type.decode")
-    # C07: an alternative this version does not know is skipped by exactly its length prefix and reported as (None, None)
+def _(self, decoder: Obj("Decoder")) -> Tup(Opt(Str), Opt(Val)):
+    # C07: an alternative this version does not know is skipped by exactly its length prefix and reported as
+    # (None, None); a known alternative is never reported as unknown
+    opaque("oer_tag_len", "oer_ld_size", "oer_ld_val")
+    raises(DecodeError)
+    raises(UnicodeDecodeError)
+    raises(ValueError)
+    raises(IndexError)
+    raises(OverflowError)
+    assigns(decoder)
     ensures(decoder.number_of_bits < old(decoder.number_of_bits))
+    ensures(implies(result[0] is None,
+                    result[1] is None and self.has_extension_marker
+                    and decoder.number_of_bits
+                    == old(decoder.number_of_bits) - 8 * oer_tag_len(decoder.value, old(decoder.number_of_bits))
+                    - oer_ld_size(decoder.value, old(decoder.number_of_bits)
+                                  - 8 * oer_tag_len(decoder.value, old(decoder.number_of_bits)))
+                    - 8 * oer_ld_val(decoder.value, old(decoder.number_of_bits)
+                                     - 8 * oer_tag_len(decoder.value, old(decoder.number_of_bits)))))
 
 
 @contract("Enumerated.encode", props=["C06", "C12", "C01"])
@@ -174,4 +190,9 @@ def _(self, data: Val, encoder: Obj("Encoder")):
 @contract("Enumerated.decode", props=["C06", "C07", "C16", "C08", "C01"])
 def _(self, decoder: Obj("Decoder")):
     refines("Type.decode")
+    # X.696 11: exactly one octet, or 1 + n octets in the long form -- whether or not this version knows the value
+    # (C07: an unknown value of an extensible type is skipped whole, so what follows is read from the right place)
+    use(clear_top_p(decoder.value, decoder.number_of_bits))
+    use(octet_top(decoder.value, decoder.number_of_bits))
+    ensures(decoder.number_of_bits == old(decoder.number_of_bits) - oer_enum_size(old(decoder.value), old(decoder.number_of_bits)))
     ensures(decoder.number_of_bits < old(decoder.number_of_bits))
